@@ -13,7 +13,7 @@ dest=$(echo "$first" | grep -oE '[a-zA-Z0-9_/.-]+_test\.go' | head -1 | sed -E '
 [ -z "$dest" ] && { echo "$ID: cannot find demo destination in: $first"; exit 3; }
 case "$dest" in */*) ;; *) dest="router/$dest";; esac
 democmd=$(python3 -c "import json;print(json.load(open('$M/meta.json'))['demo_cmd'])")
-democmd=$(echo "$democmd" | sed -E "s#/tmp/wt[234]?-C[0-9]+#$WT#g")
+democmd=$(echo "$democmd" | sed -E "s#/tmp/wt[2345]?-C[0-9]+#$WT#g")
 run() { unshare -n bash -c "ip link set lo up; cd $WT; $1" ; }
 git apply $M/patch.diff || { echo "$ID: PATCH DOES NOT APPLY"; exit 4; }
 go build ./... || { echo "$ID: DOES NOT COMPILE"; exit 5; }
